@@ -73,7 +73,10 @@ func VxC15Exact() {
 	// the requested instant need not lie on the grid file times lie on: it may be a
 	// nanosecond or most of a millisecond past a whole second (and so past a file
 	// stamped with that second)
-	frac := []time.Duration{0, time.Nanosecond, 999 * time.Microsecond}[vx.Choose("subMilli", 0, 2)]
+	var frac time.Duration
+	if vx.Param("FRAC", 1) == 1 {
+		frac = []time.Duration{0, time.Nanosecond, 999 * time.Microsecond}[vx.Choose("subMilli", 0, 2)]
+	}
 	plan, err := CalcRestorePlan(context.Background(), &vxPlanClient{files: files}, 0, vxAt(T).Add(frac), vxLogger())
 	// expected: largest i replicated strictly before the requested instant
 	var want uint64
